@@ -394,7 +394,10 @@ fn encode(run: &Run, thorough: bool, acc: &mut Acc) {
         }
         for pat in pats {
             for words in 0..=2usize {
-                for trailing in [0usize, 1, k - 1] {
+                let mut trailings = vec![0usize, 1, k - 1];
+                trailings.sort_unstable();
+                trailings.dedup();
+                for trailing in trailings {
                     for fill in 0..if thorough { 4 } else { 2 } {
                         jobs.push(json!({"code": ci, "pattern": pat, "words": words, "trailing": trailing, "fill": fill}));
                     }
